@@ -87,11 +87,19 @@ func lockOrder(c *Ctx, only ...string) {
 		}
 		fl := li.Fns[fn]
 		for _, ci := range callsIn(fn) {
-			call, ok := ci.(*ssa.Call)
-			if !ok {
+			var call ssa.CallInstruction
+			var held LockSet
+			switch x := ci.(type) {
+			case *ssa.Call:
+				call, held = x, fl.May[x]
+			case *ssa.Defer:
+				if _, isLock := asLockOp(x); isLock {
+					continue
+				}
+				call, held = x, fl.RunMay[x] // the locks still held when the deferred call runs (LIFO)
+			default:
 				continue
 			}
-			held := fl.May[call]
 			if len(held) == 0 {
 				continue
 			}
@@ -134,16 +142,17 @@ func lockOrder(c *Ctx, only ...string) {
 			continue
 		}
 		if e.from == e.to {
-			if e.fromM == 'R' && e.toM == 'R' {
-				continue
-			}
 			key := e.fnKey + "/" + e.from
 			if selfSeen[key] {
 				continue
 			}
 			selfSeen[key] = true
 			w := append([]string{fmt.Sprintf("holding %s(%c) in %s", e.from, e.fromM, e.fnKey)}, e.witness...)
-			c.Fail("lock-reentry", key, e.pos, fmt.Sprintf("%s is re-acquired (%c) while already held (%c) on the same goroutine: sync mutexes are not reentrant, the goroutine blocks forever and every later user of the lock with it", e.from, e.toM, e.fromM), w...)
+			detail := fmt.Sprintf("%s is re-acquired (%c) while already held (%c) on the same goroutine: sync mutexes are not reentrant, the goroutine blocks forever and every later user of the lock with it", e.from, e.toM, e.fromM)
+			if e.fromM == 'R' && e.toM == 'R' {
+				detail = fmt.Sprintf("%s is read-locked again while already read-locked by the same goroutine: a writer arriving between the two RLock calls blocks the second one and is itself blocked by the first (recursive read locking dead-locks)", e.from)
+			}
+			c.Fail("lock-reentry", key, e.pos, detail, w...)
 			continue
 		}
 		if graph[e.from] == nil {
